@@ -206,21 +206,49 @@ theorem unwrapNode_err_or_ok (f : Facts) (c : Bool) (d : Option Obj) :
       · exact Or.inr ⟨_, _, rfl, formatError_other_ne _⟩
       · exact Or.inl ⟨_, rfl⟩
 
-theorem unwrapAll_reports (f : Facts) (hm : f.nodeMissingIsError = true) (hn : f.nodeNotMapIsError = true) :
-    ∀ (cs : List Bool) (ds : List (Option Obj)) (i : Nat) (d : Option Obj),
-      cs[i]? = some true → ds[i]? = some d → NodeBad d → IsErr (unwrapAll f cs ds)
-  | [], _, i, _, hc, _, _ => by simp at hc
-  | _ :: _, [], i, _, _, hd, _ => by simp at hd
-  | c :: cs, d' :: ds, 0, d, hc, hd, hb => by
-    simp at hc hd; subst hc; subst hd
-    obtain ⟨cls, e, he, hne⟩ := unwrapNode_bad f hm hn d' hb
-    exact ⟨cls, e, by simp [unwrapAll, he], hne⟩
-  | c :: cs, d' :: ds, i + 1, d, hc, hd, hb => by
-    simp at hc hd
-    rcases unwrapNode_err_or_ok f c d' with ⟨o, ho⟩ | ⟨cls, e, he, hne⟩
-    · obtain ⟨cls, e, he, hne⟩ := unwrapAll_reports f hm hn cs ds i d hc hd hb
-      exact ⟨cls, e, by simp [unwrapAll, ho, he], hne⟩
-    · exact ⟨cls, e, by simp [unwrapAll, he], hne⟩
+theorem unwrapNode_not_panic (f : Facts) (c : Bool) (d : Option Obj) (w : String) :
+    unwrapNode f c d ≠ .error (.panic w) := by
+  rcases unwrapNode_err_or_ok f c d with ⟨o, ho⟩ | ⟨cls, e, he, _⟩
+  · rw [ho]; simp
+  · rw [he]; simp
+
+theorem mem_zipWith_of_getElem? {α β γ : Type} (g : α → β → γ) :
+    ∀ (as : List α) (bs : List β) (i : Nat) (a : α) (b : β), as[i]? = some a → bs[i]? = some b →
+      g a b ∈ List.zipWith g as bs
+  | [], _, i, _, _, ha, _ => by simp at ha
+  | _ :: _, [], i, _, _, _, hb => by simp at hb
+  | x :: as, y :: bs, 0, a, b, ha, hb => by simp at ha hb; subst ha; subst hb; simp
+  | x :: as, y :: bs, i + 1, a, b, ha, hb => by
+    simp at ha hb
+    simp only [List.zipWith_cons_cons, List.mem_cons]
+    exact Or.inr (mem_zipWith_of_getElem? g as bs i a b ha hb)
+
+theorem formatErrorL_ne_of_mem {e : GoErr} {es : List GoErr} (he : e ∈ es) (hne : formatError e ≠ []) :
+    formatErrorL es ≠ [] := by
+  cases hf : formatError e with
+  | nil => exact absurd hf hne
+  | cons x xs =>
+    intro h
+    have : x ∈ formatErrorL es := mem_formatErrorL he (by rw [hf]; simp)
+    rw [h] at this
+    cases this
+
+theorem unwrapAll_reports (f : Facts) (hm : f.nodeMissingIsError = true) (hn : f.nodeNotMapIsError = true)
+    (cs : List Bool) (ds : List (Option Obj)) (i : Nat) (d : Option Obj)
+    (hc : cs[i]? = some true) (hd : ds[i]? = some d) (hb : NodeBad d) : IsErr (unwrapAll f cs ds) := by
+  obtain ⟨cls, e, he, hne⟩ := unwrapNode_bad f hm hn d hb
+  have hmem : unwrapNode f true d ∈ List.zipWith (unwrapNode f) cs ds :=
+    mem_zipWith_of_getElem? (unwrapNode f) cs ds i true d hc hd
+  have hin : e ∈ (List.zipWith (unwrapNode f) cs ds).filterMap errOf :=
+    List.mem_filterMap.mpr ⟨_, hmem, by rw [he]; rfl⟩
+  unfold unwrapAll
+  simp only
+  split
+  · rename_i hemp
+    rw [List.isEmpty_iff] at hemp
+    rw [hemp] at hin
+    cases hin
+  · exact ⟨"node", _, rfl, by simpa [formatError] using formatErrorL_ne_of_mem hin hne⟩
 
 theorem queryBatch_ok_length {f : Facts} {url : String} {n : Nat} {w : Wire} {results : List (Option Obj)}
     (h : queryBatch f url n w = .ok results) : results.length = n := by
@@ -290,26 +318,11 @@ theorem C09_signal_reported_wrong_count_any_queryer (n k : Nat) (h : k ≠ n) :
 
 def beforeFix4 : Facts := { Gen.QueryBatchFacts.expected with rootListGuard := false }
 
-theorem unwrapAll_no_panic (f : Facts) : ∀ (cs : List Bool) (ds : List (Option Obj)) (w : String),
-    unwrapAll f cs ds ≠ .error (.panic w)
-  | [], _, w => by simp [unwrapAll]
-  | _ :: _, [], w => by simp [unwrapAll]
-  | c :: cs, d :: ds, w => by
-    have ih := unwrapAll_no_panic f cs ds w
-    unfold unwrapAll
-    cases h1 : unwrapNode f c d with
-    | error e =>
-      simp only
-      intro h
-      cases h
-      rcases unwrapNode_err_or_ok f c d with ⟨o, ho⟩ | ⟨cls, e', he, _⟩
-      · rw [ho] at h1; cases h1
-      · rw [he] at h1; cases h1
-    | ok o =>
-      simp only
-      cases h2 : unwrapAll f cs ds with
-      | error e => simp only; intro h; cases h; exact ih h2
-      | ok os => simp
+theorem unwrapAll_no_panic (f : Facts) (cs : List Bool) (ds : List (Option Obj)) (w : String) :
+    unwrapAll f cs ds ≠ .error (.panic w) := by
+  unfold unwrapAll
+  simp only
+  split <;> simp
 
 /-- **No answer makes the decode path panic**, given the response-count guard of `queryBatch`. -/
 theorem C09_no_panic_of (f : Facts) (hl : f.lengthCheck = true) (url : String) (child : List Bool) (w : Wire)
@@ -409,7 +422,7 @@ example : decodeExchange Gen.QueryBatchFacts.expected "u" [false, true]
   have k2 : keyMatch "errors" "data" = false := keyMatch_false (by decide) (by decide)
   simp [decodeExchange, queryBatch, fetch, Gen.QueryBatchFacts.expected, decodeResponses, decodeResp,
     decodeErrors, decodeData, lookupFold, keyMatch_self, k2, bind, Except.bind, pure, Except.pure, loop, countCheck,
-    unwrapAll, unwrapNode, J.lookup, List.mapM_cons, List.mapM_nil]
+    unwrapAll, unwrapNode, errOf, okOf, J.lookup, List.mapM_cons, List.mapM_nil]
 
 end PebblesVerif.QB
 
